@@ -10,7 +10,7 @@ WT=/tmp/confirm/wt
 export CARGO_NET_OFFLINE=true
 mkdir -p /tmp/confirm
 if [ ! -d $WT ]; then git -C /repo worktree add -q --detach $WT HEAD || exit 2; fi
-cd $WT && git checkout -q --detach $(git -C /repo rev-parse HEAD) && git checkout -- . && rm -rf demo && cp /repo/Cargo.lock .
+rm -f $WT/ascent_macro/examples/scratchpad.rs; cd $WT && git checkout -q --detach $(git -C /repo rev-parse HEAD) && git checkout -- . && rm -rf demo && cp /repo/Cargo.lock .
 cp -r $SRC/demo $WT/demo && rm -rf $WT/demo/target && cp /repo/Cargo.lock $WT/demo/Cargo.lock
 LOG=/tmp/confirm/$NAME.log; : > $LOG
 run_demo() { (cd $WT/demo && CARGO_TARGET_DIR=/tmp/confirm/demo-target timeout 1200 cargo run --offline -q >>$LOG 2>&1); }
